@@ -12,6 +12,8 @@ import (
 
 	cbackoff "github.com/cenkalti/backoff/v4"
 
+	ubackoff "github.com/aperturerobotics/util/backoff"
+
 	"github.com/aperturerobotics/util/keyed"
 	"github.com/aperturerobotics/util/verifhook"
 
@@ -776,7 +778,11 @@ func newK7World(c *mon.Case, retry bool, delay time.Duration, behave func(int, s
 	w := &k7World{c: c, retry: retry, delay: delay, behave: behave, epoch: map[string]int{}, removed: map[string]int64{}, ctorKey: map[int]string{}}
 	var opts []keyed.Option[string, int]
 	if retry {
-		opts = append(opts, keyed.WithBackoff[string, int](func(string) cbackoff.BackOff { return cbackoff.NewConstantBackOff(rtBackoff) }))
+		if c.Index%3 == 1 {
+			opts = append(opts, keyed.WithRetry[string, int](&ubackoff.Backoff{BackoffKind: ubackoff.BackoffKind_BackoffKind_CONSTANT, Constant: &ubackoff.Constant{Interval: 1}}))
+		} else {
+			opts = append(opts, keyed.WithBackoff[string, int](func(string) cbackoff.BackOff { return cbackoff.NewConstantBackOff(rtBackoff) }))
+		}
 	}
 	if delay != 0 {
 		opts = append(opts, keyed.WithReleaseDelay[string, int](delay))
